@@ -10,8 +10,8 @@ def plan(ctx):
         if fn not in FUNCTIONS:
             uncovered.append(f"{fn} missing from the function table")
             continue
-        obs.append(Obligation(f"engine_calls.{fn}", "xh", "c05", "engine_calls", param={"fn": fn}, timeout=T,
-                              bounds="flag string: every subset of {i,m,s,x} in lower or upper case, or None, or omitted (symbolic); the stubbed engine reports 0..4 matches (symbolic); clock readings are arbitrary non-decreasing instants (symbolic increments 0..10 s); every re/regex module and precompiled pattern reachable from functions.py is stubbed",
+        obs.append(Obligation(f"engine_calls.{fn}", "xh", "c05", "engine_calls", param={"fn": fn}, timeout=T * 4,
+                              bounds="flag string: every subset of {i,m,s,x} in lower or upper case, or None, or omitted (symbolic); the stubbed engine reports 0..4 matches (symbolic); clock readings are arbitrary non-decreasing instants (symbolic increments 0..10 s); every re/regex module and precompiled pattern reachable from functions.py is stubbed; the primary engine may reject the pattern (symbolic)",
                               desc=f"{fn}: every entry into a regular-expression engine carries timeout in [0, 0.1]; at most 2 engine calls per builtin call"))
     return {
         "obligations": obs, "uncovered": uncovered,
